@@ -41,6 +41,10 @@ type Replay struct {
 	Schedule   []string      `json:"schedule_trace"`
 	EventLog   []string      `json:"event_log"`
 	Race       []string      `json:"race_reports,omitempty"`
+	// WarmRuns > 0: the failure depends on state the code under test keeps across runs (package-level
+	// caches, pools); replay first re-executes runs WarmStart..WarmStart+WarmRuns-1 of the same seed and worker
+	WarmStart int `json:"warm_start,omitempty"`
+	WarmRuns  int `json:"warm_runs,omitempty"`
 }
 
 type Summary struct {
@@ -220,6 +224,7 @@ func main() {
 			sum.Sigs[s]++
 			if _, have := sum.FailFiles[s]; !have && len(sum.FailFiles) < *maxFail && *out != "" {
 				o2 := o
+				warm := false
 				if !p.Race {
 					// re-run with tracing for the replay file (a race is reported once per process, so race runs are not repeated here)
 					pl, sc := simrt.ReplaySource(o.PlanRec), simrt.ReplaySource(o.SchedRec)
@@ -231,9 +236,18 @@ func main() {
 							ok = true
 						}
 					}
-					if !ok || o2.TraceHash != o.TraceHash {
-						sum.Infra = fmt.Sprintf("run %d: immediate replay diverged (sig %s reproduced=%v, trace %016x vs %016x)", i, s, ok, o.TraceHash, o2.TraceHash)
-						break
+					if !ok {
+						// the violation was observed on real code but an immediate re-execution of the same choices
+						// behaves differently: the code under test carries state from run to run.  Keep the
+						// original observation and make the replay file re-execute this worker's earlier runs first.
+						sum.Counters["replay_needs_warm_process"]++
+						o2 = o
+						warm = true
+					}
+					if o2.TraceHash != o.TraceHash {
+						// same violation, different execution: the code under test keeps state across runs
+						// (a package-level cache, pool, ...) - the violation stands, the replay may need a warm process
+						sum.Counters["replay_not_identical_process_global_state"]++
 					}
 				}
 				m2, _ := filter(p, o2)
@@ -244,7 +258,11 @@ func main() {
 					}
 				}
 				f := filepath.Join(*out, fmt.Sprintf("fail-w%d-r%d-%016x.json", *worker, i, hashStr(s)))
-				if err := writeJSON(f, mkReplay(*prop, *seed, *worker, i, o2, vs, s)); err != nil {
+				rp := mkReplay(*prop, *seed, *worker, i, o2, vs, s)
+				if warm {
+					rp.WarmStart, rp.WarmRuns = *start, i-*start
+				}
+				if err := writeJSON(f, rp); err != nil {
 					sum.Infra = err.Error()
 				}
 				sum.FailFiles[s] = f
@@ -297,6 +315,10 @@ func doReplay(path string) int {
 		fmt.Fprintln(os.Stderr, "worker:", err)
 		return 2
 	}
+	for j := r.WarmStart; j < r.WarmStart+r.WarmRuns; j++ {
+		pl, sc := sources(r.Property, r.Seed, r.Worker, j)
+		p.Run(pl, sc, false)
+	}
 	o := p.Run(simrt.ReplaySource(r.Plan), simrt.ReplaySource(r.Sched), true)
 	if o.Infra != "" {
 		fmt.Fprintln(os.Stderr, "worker: INFRA:", o.Infra)
@@ -348,6 +370,10 @@ func doMinimise(path, outPath string, budget float64) int {
 			}
 		}
 		return c, false
+	}
+	if r.WarmRuns > 0 {
+		fmt.Fprintln(os.Stderr, "worker: the failure needs a warm process; not minimised")
+		return 3
 	}
 	cur, ok := try(cand{r.Plan, r.Sched})
 	if !ok {
